@@ -101,7 +101,8 @@ def make_batch(spec):
 
 def batch_spec():
     from hypothesis import strategies as st
-    return st.fixed_dictionaries(dict(seed=st.integers(0, 2 ** 31 - 1), n=st.integers(1, 4), w=st.sampled_from([32, 48, 64, 96, 160]),
+    return st.fixed_dictionaries(dict(seed=st.integers(0, 2 ** 31 - 1), n=st.integers(0, 15).flatmap(lambda k: st.sampled_from([6, 9]) if k == 0 else st.integers(1, 4)),
+                                      w=st.sampled_from([32, 48, 64, 96, 160, 32, 48, 64, 96, 160, 160, 400]),
                                       binary=st.sampled_from([False, False, True])))
 
 
@@ -145,7 +146,7 @@ def strat_steps():
 def body_steps(ctx, case):
     import torch
     cfg, bspec, lseed, L = case
-    net = build_model(cfg)
+    net = build_model(cfg, max_seq_len=128)
     X = make_batch(bspec)
     cap = bspec["w"] // 4
     L = min(L, cap)
@@ -211,7 +212,7 @@ def make_machine(ctx):
 
         def op_init(self, cfg):
             self.cfg = cfg
-            self.pristine = build_model(cfg)
+            self.pristine = build_model(cfg, max_seq_len=128)        # lines up to 400 px: cap of 100 steps
             self.model = copy.deepcopy(self.pristine)
             self.engine = make_engine(self.model, cfg)
             self.batches = []
